@@ -634,6 +634,21 @@ def check(tier, seed, jobs):
                 violations.append(v)
             harness.extend(out["harness"])
     bad = badarg_check()
+    # phase 3: interrupted calls inside seeded histories (operands keep history and caches,
+    # the history continues afterwards under the frame invariant and the twins)
+    nhist = 320 if tier == "quick" else 9600
+    hres, herr = M.run_batch("C11", seed, list(range(nhist)), jobs)
+    harness.extend(herr)
+    for r in hres:
+        if r["error"]:
+            harness.append(f"history run {r['run']}: {r['error'][-600:]}")
+    hviol, hnew, hknown, hlines = M.triage("C11", seed, hres, tier)
+    hstats = {}
+    for r in hres:
+        for k, v in r["stats"].items():
+            if k.startswith("fault:"):
+                hstats[k[6:]] = hstats.get(k[6:], 0) + v
+    hist_fired = sum(v for k, v in hstats.items() if k.endswith("@k:fired"))
     violations.sort(key=lambda v: (v["case_index"], v["mode"], v["k"]))
     # known findings / reporting
     known = M.load_known()
@@ -664,11 +679,15 @@ def check(tier, seed, jobs):
     for fid, hits in known_hits.items():
         f = next(x for x in known["findings"] if x["id"] == fid)
         lines.append(f"KNOWN-FINDING: property=C11 {fid}: {f['title']} ({len(hits)} crash points)")
+    lines.extend(hlines)
+    for fid, hits in hknown.items():
+        f = next(x for x in known["findings"] if x["id"] == fid)
+        lines.append(f"KNOWN-FINDING: property=C11 {fid}: {f['title']} (re-found in {len(hits)} histories)")
     wall = time.time() - t0
     evidence = {
         "property_id": "C11", "tier": tier, "seed": seed, "level": "fault_enumeration",
         "coverage": {
-            "evaluations": totals["fired"] + bad["tried"],
+            "evaluations": totals["fired"] + bad["tried"] + hist_fired,
             "distinct_nontrivial": len(sites) + bad["rejected"],
             "rule": "one evaluation = one injected fault (exception raised at the k-th monitored interpreter event "
                     "inside a non-mutating call, operands rebuilt each time) or one invalid-argument call; distinct "
@@ -686,8 +705,10 @@ def check(tier, seed, jobs):
             "all_events_total": sum(plan[i]["all_events"] for i in plan),
             "dirty_window_events_seen": sum(plan[i]["dirty_events"] for i in plan),
             "badarg": {k: bad[k] for k in ("tried", "rejected", "accepted")},
+            "histories_with_interrupts": {"runs": len(hres), "steps": sum(len(r["steps"]) for r in hres),
+                                          "faults": hstats, "violating_runs": len(hviol)},
             "injections_per_hour": round(totals["fired"] * 3600 / wall) if wall > 0 else 0,
-            "violating_injections": len(violations), "unlisted": len(new_viol) + len(bad["violations"]),
+            "violating_injections": len(violations), "unlisted": len(new_viol) + len(bad["violations"]) + len(hnew),
             "harness_errors": len(harness),
             "exhaustive": tier == "thorough" and all(plan[i]["exhaustive"] for i in plan if i < len(cat)),
             "real_vs_stub": "real: shapepy, numpy, pynurbs, matplotlib(Agg); simulator-owned: the monitor callback that raises",
@@ -697,7 +718,7 @@ def check(tier, seed, jobs):
             "the geometric kernel (sim/kernel.py) is the trusted base for 'still denotes the region'",
         ],
         "wall_s": round(wall, 2),
-        "violations": len(new_viol) + len(bad["violations"]),
+        "violations": len(new_viol) + len(bad["violations"]) + len(hnew),
     }
     M.write_evidence("C11", evidence)
     for line in lines:
@@ -705,12 +726,13 @@ def check(tier, seed, jobs):
     print(f"C11: {len(cases)} cases ({len(cat)} catalogue), {totals['fired']} faults fired "
           f"({totals['swallowed']} swallowed, {totals['not_fired']} not reached), {len(sites)} distinct crash sites, "
           f"badarg {bad['tried']} tried / {bad['rejected']} rejected, {len(violations)} violating injections "
-          f"({len(new_viol)} unlisted), {len(harness)} harness errors, {wall:.1f}s")
+          f"({len(new_viol)} unlisted); {len(hres)} histories with {hist_fired} interrupted calls, "
+          f"{len(hviol)} violating ({len(hnew)} unlisted); {len(harness)} harness errors, {wall:.1f}s")
     if harness:
         for h in harness[:5]:
             print("HARNESS-ERROR", h)
         return 2
-    if new_viol or bad["violations"]:
+    if new_viol or bad["violations"] or hnew:
         return 1
     return 0
 
